@@ -208,10 +208,13 @@ class World:
                     return upd, ['bogus', 0, None, 99, 'DONE', -1, (3,)][var % 7]
                 if kind == 'badupdate':
                     return [[1, 2, 3], [], (), '', 0, False, set(), 'abc', 5, {self.name: 5},
-                            {self.name: 'text'}, {self.name: None},
-                            # the task's own entry as a read-only mapping (cannot hold the clocks)
-                            {self.name: types.MappingProxyType({'payload': k})},
-                            {self.name: FrozenMap({'payload': k})}][var % 14], TaskStatus.DONE
+                            {self.name: 'text'}, {self.name: None}][var % 12], TaskStatus.DONE
+                if kind == 'roown':
+                    # the task's own entry as a read-only mapping (cannot hold the clocks): whether this
+                    # counts as malformed (FAILED) or is accepted (DONE) is the implementation's choice;
+                    # the worker must survive it (C03 only, not replayed on the model)
+                    return {self.name: [types.MappingProxyType({'payload': k}),
+                                        FrozenMap({'payload': k})][var % 2]}, TaskStatus.DONE
                 if kind == 'waitstatus':
                     return upd, [TaskStatus.WAITING, TaskStatus.PENDING, TaskStatus.SKIPPED, True][var % 4]
                 raise AssertionError(kind)
